@@ -42,6 +42,8 @@ def multigraph_scenario(rnd, sid):
                 a, b = rnd.sample(names, 2)
         if {a, b} <= {"R0", "T0"}:
             a = "J0"
+        if rnd.random() < 0.5:
+            a, b = b, a          # drawn towards the source as often as away from it
         links.append({"name": "P%d" % k, "type": "pipe", "a": a, "b": b, "len": netgen.rgrid(rnd, 100, 800, 50),
                       "diam": rnd.choice([0.2, 0.3]), "rough": 100.0, "minor": 0.0, "cv": False, "init": rnd.choice([1, 1, 1, 0])})
     s["links"] = links
